@@ -93,6 +93,45 @@ func canonT(t time.Time) string {
 // wild reduces to here: with zone designator (Z or a non-zero +hh:mm), with two fractional
 // digits and no zone, plain.
 func drawXDate(l *core.Lane) (text, want string) {
+	text, want = drawXDateBase(l)
+	if x := XDateExtra; x != nil && x.Chance(1, 3) {
+		// further shapes of the XMP date format (YYYY-MM-DDThh:mm:ss.sTZD): a fraction of 1..9
+		// digits, with or without a zone designator
+		y, mo, d := 1971+x.Intn(120), 1+x.Intn(12), 1+x.Intn(28)
+		h, mi, s := x.Intn(24), x.Intn(60), x.Intn(60)
+		nd := 1 + x.Intn(9)
+		frac := 0
+		for i := 0; i < nd; i++ {
+			frac = frac*10 + x.Intn(10)
+		}
+		ns := frac
+		for i := nd; i < 9; i++ {
+			ns *= 10
+		}
+		text = fmt.Sprintf("%04d-%02d-%02dT%02d:%02d:%02d.%0*d", y, mo, d, h, mi, s, nd, frac)
+		loc := time.UTC
+		switch x.Intn(3) {
+		case 1:
+			text += "Z"
+		case 2:
+			oh, om := 1+x.Intn(13), []int{0, 30, 45}[x.Intn(3)]
+			sign, secs := "+", oh*3600+om*60
+			if x.Bool() {
+				sign, secs = "-", -secs
+			}
+			text += fmt.Sprintf("%s%02d:%02d", sign, oh, om)
+			loc = time.FixedZone("", secs)
+		}
+		want = canonT(time.Date(y, time.Month(mo), d, h, mi, s, ns, loc))
+	}
+	return
+}
+
+// XDateExtra, when set (by the C13 campaign, to a side lane), lets drawXDate replace a date by
+// one of the further shapes; the record lane is consumed as before.
+var XDateExtra *core.Lane
+
+func drawXDateBase(l *core.Lane) (text, want string) {
 	y, mo, d := 1971+l.Intn(120), 1+l.Intn(12), 1+l.Intn(28)
 	h, mi, s := l.Intn(24), l.Intn(60), l.Intn(60)
 	base := fmt.Sprintf("%04d-%02d-%02dT%02d:%02d:%02d", y, mo, d, h, mi, s)
